@@ -651,3 +651,105 @@ def case_dupids(ctx, case):
         except ValueError as e:
             ctx.oracle('non-unique' in str(e), f'{fn}: unexpected ValueError {e}', case)
         ctx.count('dupids', fn)
+
+
+# ---------------------------------------------------------------------------------------------
+# table histories: the built-in score table is handed out, edited in place by the caller, and used again
+# ---------------------------------------------------------------------------------------------
+ROUTES = ['smat_fcwb', 'NBlaster.score_fn', 'parse_score_fn']
+EDITS = ['cells[i,j]=', 'cells*=2', 'cells[:]=0', 'axes[0].boundaries*=4', 'axes[1].boundaries*=0.5', 'axes[0].boundaries[i]=',
+         'axes[1].boundaries[i]=']
+
+
+def fetch_table(route, alpha):
+    from navis.nbl import smat as SM
+    if route == 'smat_fcwb':
+        return SM.smat_fcwb(alpha)
+    if route == 'NBlaster.score_fn':
+        return NF.NBlaster(use_alpha=alpha, smat='auto').score_fn
+    return SM.parse_score_fn('auto', alpha)
+
+
+def edit_table(lut, how, r):
+    if how == 'cells[i,j]=':
+        lut.cells[0, lut.cells.shape[1] - 1] = -50.0      # the self-match cell
+        lut.cells[r.randrange(lut.cells.shape[0]), r.randrange(lut.cells.shape[1])] = 99.0
+    elif how == 'cells*=2':
+        lut.cells *= 2
+    elif how == 'cells[:]=0':
+        lut.cells[:] = 0.5
+    elif how == 'axes[0].boundaries*=4':
+        lut.axes[0].boundaries *= 4
+    elif how == 'axes[1].boundaries*=0.5':
+        lut.axes[1].boundaries *= 0.5
+    elif how == 'axes[0].boundaries[i]=':
+        b = lut.axes[0].boundaries
+        b[1:-1] = b[1:-1] + 0.3
+    else:
+        b = lut.axes[1].boundaries
+        b[1:-1] = b[1:-1] * 0.9
+
+
+def shares(a, b):
+    """do two tables obtained independently share any array?"""
+    out = []
+    if np.shares_memory(a.cells, b.cells):
+        out.append('cells')
+    for k, (x, y) in enumerate(zip(a.axes, b.axes)):
+        if x is y:
+            out.append(f'axes[{k}]')
+        if np.shares_memory(x.boundaries, y.boundaries):
+            out.append(f'axes[{k}].boundaries')
+    return out
+
+
+def gen_tabhist(ctx, r, k):
+    C = _c06()
+    alpha = bool(k % 2)
+    route = ROUTES[(k // 2) % len(ROUTES)]
+    how = EDITS[k % len(EDITS)]
+    fn = ['nblast', 'allbyall', 'smart', 'nblast'][(k // 3) % 4]
+    if fn == 'smart':
+        sub = gen_smart(ctx, r)
+        sub['table'] = dict(kind='auto')
+        sub['cfg']['use_alpha'] = alpha
+        sub['cfg']['limit_dist'] = 'auto' if sub['cfg']['limit_dist'] == 'auto' else None
+        sub['criterion'], sub['thr'] = 'score', r.choice([0, -1000, 1])
+    else:
+        sub = C.gen_nblast(ctx, r, dict(fn=fn, tkind='auto', ua=alpha))
+        sub['cfg']['precision'] = 64
+        sub['cfg'].pop('approx_nn', None)
+        sub['opt'] = {}
+    return dict(route=route, alpha=alpha, edits=[how] + ([r.choice(EDITS)] if r.random() < 0.4 else []), fn=fn, sub=sub,
+                eseed=r.randrange(10 ** 6))
+
+
+def case_tabhist(ctx, case):
+    import random as _random
+    C = _c06()
+    from navis.nbl import smat as SM
+    route, alpha, sub, fn = case['route'], case['alpha'], case['sub'], case['fn']
+    rr = _random.Random(case.get('eseed', 0))
+    ctx.count('tabhist', f"{route}/{'alpha' if alpha else 'noalpha'}/{'+'.join(case['edits'])}/{fn}")
+    try:
+        a, b = fetch_table(route, alpha), fetch_table(route, alpha)
+        sh = shares(a, b)
+        ctx.oracle(a is not b and not sh, f'two tables obtained through {route}(alpha={alpha}) are the same object or share {sh}: '
+                                          f'an in-place edit of one changes the other (and the cached built-in table)', case)
+        for how in case['edits']:
+            edit_table(a, how, rr)
+        # the caller's copy did change (the edit is not a no-op) ...
+        c = fetch_table(route, alpha)
+        changed = not (np.array_equal(a.cells, c.cells) and all(np.array_equal(x.boundaries, y.boundaries) for x, y in zip(a.axes, c.axes)))
+        ctx.oracle(changed or bool(sh), 'the edit did not change the edited table', case)
+        # ... and every default-table NBLAST afterwards still scores with the published table (Gen/Smat.lean)
+        if fn == 'smart':
+            case_smart(ctx, sub)
+        else:
+            C.case_nblast(ctx, sub)
+    finally:
+        # keep a broken tree from poisoning every later case of the run
+        try:
+            SM._smat_fcwb.cache_clear()
+        except Exception:   # noqa
+            pass
